@@ -235,6 +235,11 @@ def run(chk):
     P = chk.program(('core', 'lib'))
     ob_include(chk, P)
     ob_render(chk, P, 2 if chk.tier == 'quick' else 3)
+    # both obligations above describe the scope the partial receives and appeal to the frame lemmas (own key first, else exactly the parent /
+    # never the parent for a sandbox): those lemmas are discharged here as well, on the same tree
+    from checks import C18
+    for ft in ('StackFrame', 'SandboxedStackFrame', 'GlobalFrame'):
+        C18.ob_lookup(chk, P, ft, 2)
     for name, sc in (('include shares scope', include_scenario2()), ('render isolates', render_scenario())):
         chk.validate(name, sc['_expect'], {k: v for k, v in sc.items() if not k.startswith('_')}, lambda r: r.get('output'))
     chk.validate('missing partial is an error', 'err', {k: v for k, v in missing_scenario().items() if not k.startswith('_')}, lambda r: r.get('outcome'))
